@@ -48,7 +48,7 @@ var fnWhitelist = map[string][]string{
 		"Info.Validate", "Export.Validate", "isContainedIn", "Exports.Validate", "Exports.HasExportContainingSubject", "Mapping.Validate",
 		"CreateValidationResults", "ResponsePermission.Validate", "Permissions.Validate",
 		"OperatorLimits.IsEmpty", "OperatorLimits.Validate", "ExternalAuthorization.Validate",
-		"UserScope.Validate", "SigningKeys.Validate", "Account.Validate", "AccountClaims.Validate", "GenericClaims.Validate", "AuthorizationRequestClaims.Validate", "AuthorizationResponseClaims.Validate", "TimeRange.Validate", "Limits.Validate", "User.Validate", "UserClaims.Validate", "ParseServerVersion", "Operator.validateAccountServerURL", "ValidateOperatorServiceURL", "Operator.validateOperatorServiceURLs", "Operator.Validate", "OperatorClaims.Validate", "OperatorClaims.ExpectedPrefixes", "AccountClaims.ExpectedPrefixes", "UserClaims.ExpectedPrefixes", "ActivationClaims.ExpectedPrefixes", "AuthorizationRequestClaims.ExpectedPrefixes", "AuthorizationResponseClaims.ExpectedPrefixes", "GenericClaims.ExpectedPrefixes", "v1OperatorClaims.migrateV1", "v1UserClaims.migrateV1", "v1ActivationClaims.migrateV1", "SigningKeys.Add", "v1AccountClaims.migrateV1", "v1OperatorClaims.Migrate", "v1UserClaims.Migrate", "v1ActivationClaims.Migrate", "v1AccountClaims.Migrate", "loadOperator", "loadAccount", "loadUser", "loadActivation", "loadAuthorizationRequest", "loadAuthorizationResponse", "loadClaims", "ClaimsData.verify", "parseHeaders", "Decode", "UserClaims.Encode", "ActivationClaims.Encode", "OperatorClaims.Encode", "AccountClaims.Encode", "GenericClaims.Encode", "AuthorizationRequestClaims.Encode", "AuthorizationResponseClaims.Encode", "OperatorClaims.updateVersion", "AccountClaims.updateVersion", "UserClaims.updateVersion", "ActivationClaims.updateVersion", "AuthorizationRequestClaims.updateVersion", "AuthorizationResponseClaims.updateVersion", "DecodeOperatorClaims", "DecodeAccountClaims", "DecodeUserClaims", "DecodeAuthorizationRequestClaims", "DecodeAuthorizationResponseClaims", "UserScope.ValidateScopedSigner", "NewUserClaims", "UserClaims.SetScoped", "UserScope.SigningKey", "SigningKeys.AddScopedSigner", "SigningKeys.GetScope", "SigningKeys.Remove", "SigningKeys.Keys", "DecodeGeneric",
+		"UserScope.Validate", "SigningKeys.Validate", "Account.Validate", "AccountClaims.Validate", "GenericClaims.Validate", "AuthorizationRequestClaims.Validate", "AuthorizationResponseClaims.Validate", "TimeRange.Validate", "Limits.Validate", "User.Validate", "UserClaims.Validate", "ParseServerVersion", "Operator.validateAccountServerURL", "ValidateOperatorServiceURL", "Operator.validateOperatorServiceURLs", "Operator.Validate", "OperatorClaims.Validate", "OperatorClaims.ExpectedPrefixes", "AccountClaims.ExpectedPrefixes", "UserClaims.ExpectedPrefixes", "ActivationClaims.ExpectedPrefixes", "AuthorizationRequestClaims.ExpectedPrefixes", "AuthorizationResponseClaims.ExpectedPrefixes", "GenericClaims.ExpectedPrefixes", "v1OperatorClaims.migrateV1", "v1UserClaims.migrateV1", "v1ActivationClaims.migrateV1", "SigningKeys.Add", "v1AccountClaims.migrateV1", "v1OperatorClaims.Migrate", "v1UserClaims.Migrate", "v1ActivationClaims.Migrate", "v1AccountClaims.Migrate", "loadOperator", "loadAccount", "loadUser", "loadActivation", "loadAuthorizationRequest", "loadAuthorizationResponse", "loadClaims", "ClaimsData.verify", "parseHeaders", "Decode", "UserClaims.Encode", "ActivationClaims.Encode", "OperatorClaims.Encode", "AccountClaims.Encode", "GenericClaims.Encode", "AuthorizationRequestClaims.Encode", "AuthorizationResponseClaims.Encode", "OperatorClaims.updateVersion", "AccountClaims.updateVersion", "UserClaims.updateVersion", "ActivationClaims.updateVersion", "AuthorizationRequestClaims.updateVersion", "AuthorizationResponseClaims.updateVersion", "DecodeOperatorClaims", "DecodeAccountClaims", "DecodeUserClaims", "DecodeAuthorizationRequestClaims", "DecodeAuthorizationResponseClaims", "UserScope.ValidateScopedSigner", "NewUserClaims", "UserClaims.SetScoped", "UserScope.SigningKey", "SigningKeys.AddScopedSigner", "SigningKeys.GetScope", "SigningKeys.Remove", "SigningKeys.Keys", "DecodeGeneric", "IssueUserJWT",
 	},
 	"V1": {
 		"Subject.HasWildCards", "Subject.IsContainedIn", "cleanSubject",
@@ -58,6 +58,7 @@ var fnWhitelist = map[string][]string{
 		"OperatorClaims.Claims", "AccountClaims.Claims", "UserClaims.Claims", "ActivationClaims.Claims", "ClusterClaims.Claims", "ServerClaims.Claims", "GenericClaims.Claims",
 		"OperatorClaims.ExpectedPrefixes", "AccountClaims.ExpectedPrefixes", "UserClaims.ExpectedPrefixes", "ActivationClaims.ExpectedPrefixes", "ClusterClaims.ExpectedPrefixes", "ServerClaims.ExpectedPrefixes", "GenericClaims.ExpectedPrefixes",
 		"ClaimsData.Verify", "parseHeaders", "Decode",
+		"Operator.validateAccountServerURL", "UserClaims.Encode", "ActivationClaims.Encode", "ClusterClaims.Encode", "ServerClaims.Encode", "OperatorClaims.Encode", "AccountClaims.Encode", "GenericClaims.Encode",
 	},
 }
 
@@ -243,13 +244,14 @@ var nilableElems = map[string]bool{"Export": true, "Import": true}
 // opaqueFns: package functions that translated code may call but that stay outside the translation (their behaviour
 // is a parameter of the translated caller: a field of the generated structure `Opq`)
 // opaqueFnsV1: additionally opaque in the v1compat package only
-var opaqueFnsV1 = map[string]bool{}
+var opaqueFnsV1 = map[string]bool{"ClaimsData.Encode": true}
 
 var opaqueFns = map[string]bool{"UserClaims.HasEmptyPermissions": true, "parseClaims": true, "ClaimsData.encode": true, "decodeString": true, "DecodeActivationClaims": true, "RenamingSubject.ToSubject": true}
 
 // foreignOpaque: functions of other packages that translated code may call; each becomes a field of `Opq`
 // (name, Lean type of the field, and how a two-value result is read)
 var foreignOpaque = map[string]string{
+	"time.NowAddUnix":                "Int → Int",                            // time.Now().Add(d).Unix(): a parameter
 	"strconv.Atoi":                   "Str → Option Int",                     // none = the error result
 	"nkeys.FromPublicKey":            "Str → Option Nat",                     // none = the error result; a key pair is an uninterpreted handle
 	"nkeys.Decode":                   "Int → (List Int) → Option (List Int)", // none = the error result
@@ -723,6 +725,69 @@ func isNowChain(e ast.Expr) bool {
 		return true
 	}
 	return se.Sel.Name == "UTC" && isNowChain(se.X)
+}
+
+// derefNext: the statement following `def` in its block starts by dereferencing o (a method call on it or a
+// store/read through one of its fields)
+func (g *fnGen) derefNext(body *ast.BlockStmt, def ast.Stmt, o types.Object) bool {
+	res := false
+	ast.Inspect(body, func(n ast.Node) bool {
+		bl, ok := n.(*ast.BlockStmt)
+		if !ok {
+			return true
+		}
+		for i, st := range bl.List {
+			if st != def || i+1 >= len(bl.List) {
+				continue
+			}
+			var first ast.Expr
+			switch nx := bl.List[i+1].(type) {
+			case *ast.ExprStmt:
+				first = nx.X
+			case *ast.AssignStmt:
+				if len(nx.Lhs) == 1 {
+					first = nx.Lhs[0]
+				}
+			}
+			for first != nil {
+				switch e := first.(type) {
+				case *ast.CallExpr:
+					first = e.Fun
+					continue
+				case *ast.SelectorExpr:
+					if id, ok := e.X.(*ast.Ident); ok {
+						res = g.p.TypesInfo.Uses[id] == o
+						first = nil
+						continue
+					}
+					first = e.X
+					continue
+				}
+				first = nil
+			}
+		}
+		return true
+	})
+	return res
+}
+
+// nowAddArg: d when e is `time.Now()[.UTC()].Add(d)[.UTC()]`
+func nowAddArg(e ast.Expr) ast.Expr {
+	call, ok := e.(*ast.CallExpr)
+	if !ok {
+		return nil
+	}
+	se, ok := call.Fun.(*ast.SelectorExpr)
+	if !ok {
+		return nil
+	}
+	if se.Sel.Name == "UTC" && len(call.Args) == 0 {
+		return nowAddArg(se.X)
+	}
+	if se.Sel.Name == "Add" && len(call.Args) == 1 && isNowChain(se.X) {
+		return call.Args[0]
+	}
+	return nil
 }
 
 func usesTimeNow(n ast.Node) bool {
@@ -1343,6 +1408,19 @@ func (c *fnCtx) call(x *ast.CallExpr) ex {
 			if isNowChain(se.X) {
 				return ex{"now", false}
 			}
+			// time.Now().Add(d)[.UTC()].Unix(): the sub-second part of the clock decides the rounding, so the result
+			// is a parameter (nothing is assumed about it), not a function of `now`
+			if d := nowAddArg(se.X); d != nil {
+				q := "time.NowAddUnix"
+				if c.g.foreign == nil {
+					c.g.foreign = map[string]bool{}
+				}
+				if !c.g.foreign[q] {
+					c.g.foreign[q] = true
+					c.g.foreignOrd = append(c.g.foreignOrd, q)
+				}
+				return c.pureApp("opq.time_NowAddUnix", c.expr(d))
+			}
 			if usesTimeNow(se.X) {
 				unsup("arithmetic on time.Now()")
 			}
@@ -1591,6 +1669,11 @@ func (c *fnCtx) callFn(x *ast.CallExpr, fi *fnInfo) ex {
 		}
 		if in, isI := c.g.ifaceOf(fi.params[i].Type()); isI {
 			if tn, isP := ptrToStruct(c.typeOf(args[i])); isP {
+				if ue, ok := ast.Unparen(args[i]).(*ast.UnaryExpr); ok && ue.Op == token.AND {
+					if _, isId := ue.X.(*ast.Ident); isId {
+						unsup("address of a local variable passed as an interface value (writes through it are not tracked)")
+					}
+				}
 				a := c.expr(args[i])
 				c.g.leanType(c.typeOf(args[i]))
 				if c.rawPtr[a.s] {
@@ -2206,6 +2289,25 @@ func (c *fnCtx) assign(b *block, x *ast.AssignStmt) {
 		return
 	default:
 		unsup("assignment %s", x.Tok)
+	}
+	// p := f(args) where f may return a nil pointer and the very next statement dereferences p: the nil case
+	// panics there with nothing observable in between, so p is bound to the pointee right away
+	if len(x.Lhs) == 1 && len(x.Rhs) == 1 && x.Tok == token.DEFINE {
+		if call, ok := x.Rhs[0].(*ast.CallExpr); ok {
+			if fi := c.g.callee(call); fi != nil && fi.fd != nil && len(fi.results) == 1 && len(fi.nilPtrRes) == 1 && fi.nilPtrRes[0] {
+				id, _ := x.Lhs[0].(*ast.Ident)
+				if id == nil || id.Name == "_" {
+					unsup("nilable pointer result not kept in a variable")
+				}
+				o := c.g.p.TypesInfo.Defs[id]
+				if o == nil || !c.g.derefNext(c.fi.fd.Body, x, o) {
+					unsup("nilable pointer result kept in a variable that is not dereferenced by the next statement")
+				}
+				app := c.callFn(call, fi)
+				c.assignVar(b, o, "(← "+app.bind()+")")
+				return
+			}
+		}
 	}
 	// v, ok := x.(*T)
 	if len(x.Lhs) == 2 && len(x.Rhs) == 1 {
